@@ -1,5 +1,5 @@
 CONSTANTS
-  Alphabet = {"TXT", "NL", "CRLF", "CR", "SL", "NLSL", "NLBC", "BCCR", "BC", "BO", "LC", "TDQ", "DDQ", "QDQ", "PDQ", "BS", "HASH", "BT", "DQ"}
+  Alphabet = {"TXT", "NL", "CRLF", "CR", "SL", "NLSL", "NLBC", "BCCR", "BC", "BO", "LC", "TDQ", "DDQ", "QDQ", "PDQ", "BS", "HASH", "BT", "DQ", "AMPNL", "AMPXA", "BSN", "PCTNL", "UNL"}
   MaxLen = 2
 INIT Init
 NEXT Next
